@@ -363,7 +363,9 @@ func (vs *ValidatorStore) fetchPostponedUnstakes() error {
 		if err != nil {
 			return false
 		}
-		err = vs.HandleUnstake(*unstake, vs.lastHeight)
+		// (not HandleUnstake: its guard against unstake transactions right after a purge would drop the cut for
+		// good - this record is looked up in this one block only - although the delegation store was already cut)
+		err = vs.cutStake(*unstake)
 		if err != nil {
 			logger.Errorf("Handle unstake for validator: %s failed, %s\n", validator.Address, err)
 			return false
@@ -372,6 +374,18 @@ func (vs *ValidatorStore) fetchPostponedUnstakes() error {
 		return false
 	})
 	return nil
+}
+
+// cutStake takes a penalty that the delegation store has already been charged off the validator record.
+func (vs *ValidatorStore) cutStake(unstake Unstake) error {
+	validator, err := vs.Get(unstake.Address)
+	if err != nil {
+		return errors.Wrap(err, "error deserialize validator")
+	}
+	amt := big.NewInt(0).Sub(validator.Staking.BigInt(), unstake.Amount.BigInt())
+	validator.Staking = *balance.NewAmountFromBigInt(amt)
+	validator.Power = calculatePower(validator.Staking)
+	return vs.set(*validator)
 }
 
 func (vs *ValidatorStore) delayHandleUnstake(addr keys.Address, amt balance.Amount) error {
